@@ -48,6 +48,11 @@ REQUIRE = {
     "kind:S": 200,
     "kind:SB": 300,
     "kind:LB": 100,
+    "ops:bar_width_setter(n<1)": 60,
+    "ops:bar_width_setter(n>=1)": 60,
+    "ops:dive": 200,
+    "clause_thumb_top_listbox_cursor_shown": 300,
+    "clause_thumb_top_listbox_cursor_shown_scrolled(p>0)": 150,
     "reach:widget.scrollable.Scrollable._adjust_trim_top": 5000,
     "reach:widget.scrollable.ScrollBar.render": 5000,
     "reach:widget.listbox.ListBox.get_scrollpos": 1000,
@@ -56,7 +61,8 @@ RULE = (
     "case = (content recipe, wrapper options, view size, focus flag, op list); content in {Text of unique words, RowSpy, "
     "WrapSpy, FixedSpy, Pile of spies/Text/Edit, ListBox of spies/Text}; wrapper in {Scrollable, ScrollBar(Scrollable), "
     "ScrollBar(ListBox)} x side x bar width 1..3 x thumb/trough chars; views (2..20)x(1..10); ops = scroll keys, other keys, "
-    "mouse press/wheel, set_scrollpos(small/negative/huge), resize, focus flag, bar options, content changes, focus moves, "
+    "mouse press/wheel, set_scrollpos(small/negative/huge), resize, focus flag, scrollbar_side / scrollbar_width setters (n in -3..4, oracle uses the reported width), "
+    "content changes, focus moves, dives (cursor keys inside a tall Edit / cursor spy, then a shrink), "
     "sweeps; 20 (quick) / 50 (thorough) ops per random history plus two exhaustive small cores (set_scrollpos x short/long "
     "content; position sweeps for the thumb); the oracle runs after every op; distinct = distinct case descriptors; "
     "non-trivial = at least one render judged"
@@ -70,13 +76,14 @@ ASSUMES = [
     "a view not wider than the bar (w <= bar width) cannot satisfy the statement at all; only 'renders a canvas of the view size without raising' is judged there",
     "'handled events are not also used for scrolling' is judged only for events a spy reported as handled while the wrapped content shows no cursor (Scrollable's follow-the-cursor adjustment after an Edit consumed a key is not counted as scrolling by that key)",
     "text cells are compared, attributes are not",
+    "the bar width the oracle uses is the one the scrollbar_width property reports after construction / after the setter (documented clamp max(1, n)); thumb and trough characters have no public setter and are only chosen at construction",
     "ListBox items always have >= 1 row and the list walker is a plain SimpleListWalker/SimpleFocusListWalker (C07 covers the rest)",
 ]
 
 TOPNAME = {"S": "Scrollable", "SB": "ScrollBar+Scrollable", "LB": "ScrollBar+ListBox"}
 MAX_EXC = 3
-CASE_TIMEOUT = 5.0  # seconds per history (a normal one takes milliseconds); firing => inconclusive, the shard goes on
-MEM_LIMIT = 4 << 30  # address-space cap per shard: a runaway allocation becomes a MemoryError inside the case
+CASE_TIMEOUT = 20.0  # seconds per history (observed worst on a loaded machine: < 2 s); firing => inconclusive, the shard goes on
+MEM_LIMIT = 2 << 30  # address-space cap per shard: a runaway allocation becomes a MemoryError inside the case
 
 
 class CaseTimeout(BaseException):
@@ -306,8 +313,8 @@ class Session:
             if self.listbox_internal(e):
                 return
             self.viol(self.exc_sig(f"op:{k}", e), f"{type(e).__name__}: {e}\n{traceback.format_exc(limit=5)}")
-        handled_key = [e for e in self.log[mark:] if e[0] == "keypress" and e[-1]]
-        handled_mouse = [e for e in self.log[mark:] if e[0] == "mouse_event" and e[-1]]
+        handled_key = [e for e in self.log[mark:] if e[0] == "keypress" and e[-1] is True]
+        handled_mouse = [e for e in self.log[mark:] if e[0] == "mouse_event" and e[-1] is True]
         prev = self.prev
         obs = self.observe()
         if obs and prev and (handled_key or handled_mouse) and k in ("key", "mouse"):
@@ -315,7 +322,7 @@ class Session:
         self.prev = obs
 
     def judge_handled(self, prev, obs, what):
-        if prev["cursor"] or obs["cursor"] or prev["fp"] != obs["fp"] or len(prev["P"]) != 1:
+        if self.has_edit() or prev["cursor"] or obs["cursor"] or prev["fp"] != obs["fp"] or len(prev["P"]) != 1:
             self.c("handled_event_not_judged(cursor/ambiguous)")
             return
         self.c(f"clause_handled_{what}_p_unchanged")
@@ -571,6 +578,10 @@ class Session:
             top = a if b else h
             if b == 0:
                 self.c("bar_without_thumb")
+            if self.kind == "LB" and m["cursor"]:
+                self.c("clause_thumb_top_listbox_cursor_shown")
+                if p:
+                    self.c("clause_thumb_top_listbox_cursor_shown_scrolled(p>0)")
             if p == 0:
                 self.c("clause_top0_at_p0")
             else:
@@ -667,7 +678,7 @@ def run_case(ctx, case, state, do_shrink=True):
     if s is None:
         ctx.count("case_watchdog_fired")
         ctx.inconc(f"case-watchdog: a history did not finish within {CASE_TIMEOUT:.0f} s")
-        ctx.sample({"timed_out": case})
+        ctx.extra.setdefault("timed_out_case", case)
         return None
     ctx.count("kind:" + case["wrap"]["kind"])
     ctx.count("content:" + case["content"][0])
@@ -732,6 +743,25 @@ def core_cases(quick):
     wheel = ["mouse", "mouse press", 5, 0, 0]
     ops = [wheel, wheel, ["setrows", 0, 26], ["mouse", "mouse press", 4, 0, 0], ["mouse", "mouse press", 4, 0, 0]]
     out.append({"content": ["listbox", items, 0], "wrap": lbwrap, "size": [6, 4], "focus": True, "ops": ops})
+    # public setters after construction: scrollbar_width = n for n in -3..4 (effective width = max(1, n) as reported)
+    for kind, content in (("SB", ["rowspy", 0, 9, False, [], []]), ("SB", ["rowspy", 0, 2, False, [], []]), ("LB", ["listbox", [["rowspy", 5 * i, 1, False, [], []] for i in range(9)], 0])):
+        for n in range(-3, 5):
+            for side in ("left", "right"):
+                wrap = {"kind": kind, "side": "right", "bw": 1, "thumb": "#", "trough": ".", "walker": "focus"}
+                ops = [["bar", side, n], ["key", "down"], ["resize", 9, 3], ["bar", side, 2], ["bar", "right", n]]
+                out.append({"content": content, "wrap": wrap, "size": [7, 4], "focus": True, "ops": ops})
+    # ListBox in row mode whose focus item has a cursor and is taller than the shrunk view: cursor keys while
+    # everything fits, then a shrink, rendered with and without focus
+    for tall in ("edit", "cursorspy"):
+        for nl in (6, 9):
+            for k in (2, 5, nl - 1):
+                for h2 in (1, 2, 3):
+                    for foc in (True, False):
+                        for pre in (0, 1):
+                            it = ["edit", "", "\n".join(f"L{j}" for j in range(nl)), True] if tall == "edit" else ["cursorspy", 0, nl, [], []]
+                            items = [["rowspy", 100, 1, False, [], []]] * pre + [it, ["rowspy", 200, 2, False, [], []]]
+                            ops = [["dive", k, 6, h2], ["key", "down"], ["key", "up"], ["resize", 6, 12], ["dive", 1, 5, h2]]
+                            out.append({"content": ["listbox", items, pre], "wrap": lbwrap, "size": [6, 12], "focus": foc, "ops": ops})
     # urwid.Text with MORE rows at the wider width (4 rows at 10 columns, 3 rows at 9): the circular bar case
     text = ["text", ["A0 B1", "C2", "D3 E4 F5 G6 H7 I8", "J9", "K10 L11 M12 N13 O14 P15", "Q16R17r17q"], "space", "left"]
     wrap = {"kind": "SB", "side": "left", "bw": 1, "thumb": "#", "trough": "."}
